@@ -364,6 +364,59 @@ func (g *gen) sentence() string {
 	return string(out)
 }
 
+// focused derivations: a random derivation of ONE rule embedded in a context in which that rule is
+// reachable, so that every alternative and every class boundary of the rule meets the generated parser
+// (translation validation of jsonpath.peg.go needs each of them exercised, not only whole paths)
+var ruleContexts = [][3]string{
+	{"regex", "$[?(@.a=~/", "/)]"}, {"regex", "$[?(@=~ /", "/ )]"}, {"lString", "$[?(@.a==", ")]"}, {"lString", "$[?(", "!=@.a)]"},
+	{"lNumber", "$[?(@.a>", ")]"}, {"lNumber", "$[?(@.a==", ")]"}, {"lBool", "$[?(@.a==", ")]"}, {"lNull", "$[?(@.a!=", ")]"}, {"qLiteral", "$[?(", "==@.a)]"},
+	{"comparator", "$[?(", ")]"}, {"query", "$[?(", ")]"}, {"basicQuery", "$[?(", ")]"}, {"andQuery", "$[?(", ")]"}, {"jsonpathFilter", "$[?(", ")]"},
+	{"qParam", "$[?(", "==1)]"}, {"qNumericParam", "$[?(", "<=1)]"}, {"singleJsonpathFilter", "$[?(", "=~/a/)]"},
+	{"singleQuotedNodeIdentifier", "$[", "]"}, {"doubleQuotedNodeIdentifier", "$[", "]"}, {"bracketChildIdentifier", "$[", "]"}, {"bracketNodeIdentifier", "$[", ",'a']"},
+	{"union", "$[", "]"}, {"index", "$[", "]"}, {"slice", "$[", "]"}, {"anyIndex", "$[", ":1]"}, {"indexNumber", "$[", "]"}, {"indexNumber", "$[0:", ":2]"},
+	{"dotChildIdentifier", "$.", ""}, {"dotChildIdentifier", "$..", ".b"}, {"function", "$.a", ""}, {"functionName", "$.a.", "()"}, {"childNode", "$", ""}, {"childNode", "$.a", "[0]"},
+	{"script", "$[", "]"}, {"command", "$[(", ")]"}, {"filter", "$[", "]"}, {"qualifier", "$[", "]"}, {"hexDigits", "$['\\", "']"}, {"hexDigits", "$[\"\\", "\"]"},
+	{"signsWithoutHyphenUnderscore", "$.\\", "a"}, {"bracketNode", "$", ""}, {"bracketNode", "", ".a"}, {"rootNode", "", ".a"}, {"jsonpathParameter", "$[?(", ")]"},
+	{"continuedJsonpath", "$", ""}, {"parameterRootNode", "$[?(", ".a)]"}, {"wildcardIdentifier", "$.", ""}, {"wildcardIdentifier", "$[", ",*]"},
+	{"logicOr", "$[?(@.a", "@.b)]"}, {"logicAnd", "$[?(@.a", "@.b)]"}, {"logicNot", "$[?(", "@.a)]"}, {"sep", "$[0", "1]"}, {"sepSlice", "$[0", "1]"},
+}
+
+func (g *gen) focused() (string, string) {
+	c := ruleContexts[g.rnd.Intn(len(ruleContexts))]
+	r, ok := g.g.Rules[c[0]]
+	if !ok {
+		return g.sentence(), "grammar-walk"
+	}
+	var out []rune
+	g.walk(&r, 4, &out, c[0])
+	body := string(out)
+	if g.rnd.Intn(3) == 0 {
+		body = g.mutate1(body)
+	}
+	g.cov["focused:"+c[0]]++
+	return c[1] + body + c[2], "focused-rule"
+}
+
+// exactly one small edit
+func (g *gen) mutate1(s string) string {
+	rs := []rune(s)
+	switch g.rnd.Intn(3) {
+	case 0:
+		p := g.rnd.Intn(len(rs) + 1)
+		rs = append(rs[:p], append([]rune{g.anyRune()}, rs[p:]...)...)
+	case 1:
+		if len(rs) > 0 {
+			p := g.rnd.Intn(len(rs))
+			rs = append(rs[:p], rs[p+1:]...)
+		}
+	case 2:
+		if len(rs) > 0 {
+			rs[g.rnd.Intn(len(rs))] = g.anyRune()
+		}
+	}
+	return string(rs)
+}
+
 func (g *gen) mutate(s string) string {
 	rs := []rune(s)
 	n := 1 + g.rnd.Intn(3)
@@ -495,8 +548,11 @@ func genParseMain(args []string) {
 	}
 	for i := 0; i < *n; i++ {
 		switch i % 8 {
-		case 0, 1, 2:
+		case 0, 1:
 			emit(g.sentence(), "grammar-walk")
+		case 2:
+			p, src := g.focused()
+			emit(p, src)
 		case 3:
 			emit(g.mutate(g.sentence()), "grammar-walk-mutated")
 		case 4, 5:
@@ -506,7 +562,12 @@ func genParseMain(args []string) {
 				emit(g.garbage(), "garbage")
 			}
 		case 6:
-			emit(g.garbage(), "garbage")
+			if i%16 == 6 {
+				emit(g.garbage(), "garbage")
+			} else {
+				p, src := g.focused()
+				emit(p, src)
+			}
 		case 7:
 			emit(g.stress(), "stress")
 		}
